@@ -117,6 +117,20 @@ class C12(Prop):
             for op in ("add", "sub", "div", "lt", "eq"):
                 for a, b in pairs:
                     yield {"k": "op", "op": op, "a": a + ua, "b": b + ub}
+        # the same operators with a string or a plain number on either side (reflected operators, number equality)
+        for ua, ub in itertools.product(UNITS, UNITS):
+            for op in ("add", "sub", "eq", "lt"):
+                for a, b in (("3", "5"), ("7.25", "7.25"), ("0", "4")) + ((special[(ua, ub)],) if (ua, ub) in special else ()):
+                    yield {"k": "op", "op": op, "a": a + ua, "b": b + ub, "form": "sL"}
+                    yield {"k": "op", "op": op, "a": a + ua, "b": b + ub, "form": "Ls"}
+                    if ua == "":
+                        yield {"k": "op", "op": op, "a": a, "b": b + ub, "form": "nL"}
+                    if ub == "":
+                        yield {"k": "op", "op": op, "a": a + ua, "b": b, "form": "Ln"}
+        for u in UNITS:
+            for a, x in (("0", "0"), ("0", "0.0"), ("0", "2"), ("3", "0")):
+                yield {"k": "op", "op": "eq", "a": a + u, "b": x, "form": "Ln"}
+                yield {"k": "op", "op": "eq", "a": x, "b": a + u, "form": "nL"}
         n = 1500 if tier == "quick" else 150000
         for _ in range(n):
             ua = rng.choice(UNITS)
@@ -154,7 +168,7 @@ class C12(Prop):
         if case["k"] == "value":
             return ["value", "value.unit=" + (case["u"] or "none") + (".ctx" if case["ctx"] else ".noctx")]
         if case["k"] == "op":
-            return ["op." + case["op"]]
+            return ["op." + case["op"], "form." + case.get("form", "LL")]
         return case["k"]
 
     def nontrivial(self, case, obs):
@@ -203,8 +217,11 @@ class C12(Prop):
                 a, b = Length(case["a"]), Length(case["b"])
                 a0, b0 = (a.amount, a.units), (b.amount, b.units)
                 op = case["op"]
-                v = {"add": lambda: a + b, "sub": lambda: a - b, "div": lambda: a / b, "lt": lambda: a < b,
-                     "le": lambda: a <= b, "gt": lambda: a > b, "eq": lambda: a == b}[op]()
+                form = case.get("form", "LL")
+                x = a if form[0] == "L" else (case["a"] if form[0] == "s" else float(case["a"]))
+                y = b if form[1] == "L" else (case["b"] if form[1] == "s" else float(case["b"]))
+                v = {"add": lambda: x + y, "sub": lambda: x - y, "div": lambda: x / y, "lt": lambda: x < y,
+                     "le": lambda: x <= y, "gt": lambda: x > y, "eq": lambda: x == y}[op]()
                 r = self._enc(v)
                 r["untouched"] = (a.amount, a.units) == a0 and (b.amount, b.units) == b0
                 if isinstance(v, Length):
@@ -233,7 +250,17 @@ class C12(Prop):
             return ["c12.parse\t" + shex(case["s"] + case["u"]),
                     "c12.value\t%s\t%s\t%s\t%s\t%s\t%s" % (shex(case["s"] + case["u"]), ppi, rel, fs, fh, vb)]
         if k == "op":
-            return ["c12.op\t%s\t%s\t%s" % (case["op"], shex(case["a"]), shex(case["b"]))]
+            form, op = case.get("form", "LL"), case["op"]
+            a, b = case["a"], case["b"]
+            if form in ("nL", "Ln") and op == "eq":
+                # Length == number (either order): the Length operand first
+                return ["c12.op\teqnum\t%s\t%s" % ((shex(b), shex(a)) if form == "nL" else (shex(a), shex(b)))]
+            if form in ("sL", "nL") and op in ("add", "sub"):
+                return ["c12.op\t%s\t%s\t%s" % ("r" + op, shex(a), shex(b))]
+            if form in ("sL", "nL") and op == "lt":
+                # str < Length is decided by Length.__gt__(str): b > a
+                return ["c12.op\tgt\t%s\t%s" % (shex(b), shex(a))]
+            return ["c12.op\t%s\t%s\t%s" % (op, shex(a), shex(b))]
         return []
 
     @staticmethod
@@ -327,6 +354,9 @@ class C12(Prop):
             comm = (family(ua) == family(ub) and family(ua) != 0) or ua == ub
             if obs.get("untouched") is False:
                 fs.append(Failure(what="operator %s modified an operand" % op, case=case))
+            if op == "eq" and case.get("form") in ("nL", "Ln") and a.amount == 0 and b.amount == 0 and "bool" in obs and not obs["bool"]:
+                fs.append(Failure(what="a zero length does not equal the number 0 (every unit resolves 0 to 0)", case=case, observed=obs))
+                return fs
             if not comm:
                 return fs      # incommensurable pairs: the property states nothing (ValueError or symbolic both fine)
             if "exc" in obs:
